@@ -6,6 +6,10 @@ ALL = ["C%02d" % i for i in range(1, 21)]
 
 # property -> (level, design_ref, engine, technique, level text, level note)
 CLAIMED = {
+ "C13": ("exploration", "DESIGN.md §2 C13", "vp",
+   "bounded-exhaustive enumeration of a format/message/limit grammar against the real formatter with exact-size heap buffers (ASan) and a reference formatter",
+   "All target formats of up to 2 (thorough 3) items from literals, a 300-character literal and every directive % [-] [width] letter (documented letters, an unknown letter, %%, end of string), for every max_line_length value qb_log_ctl accepts from a boundary set, ellipsis on/off, message lengths around the limit and far beyond, with trailing newline: qb_log_format_set + qb_log_target_format write into an exact-size heap buffer, the result must be NUL-terminated within the limit and equal the reference formatter's line (exactly when it fits; prefix + ellipsis when cut). A second run sends log calls (incl. empty and over-long expansions, extended-information marker) through a custom and a file target.",
+   "Grammar bounded as stated; '-' pads on the left as in tests/check_log.c; the text of a right-aligned field cut by the limit is not judged; formats with undocumented directives are judged for memory safety and termination only; TZ=UTC."),
  "C12": ("model_checking", "DESIGN.md §2 C12", "vp",
    "bounded-exhaustive enumeration of configuration/log-call histories on the real logging core with an absolute reference matcher and a differential fresh-twin call-site oracle",
    "Every history up to the stated depth over filter ADD/REMOVE/CLEAR_ALL (exact file, function alternatives, format substring, '*', the three regex types, two priority windows), tag SET/CLEAR/CLEAR_ALL, enable/disable, close/reopen on two custom targets and log calls from four call sites is run after a fresh qb_log_init. Each log call must reach exactly the enabled targets whose stored rules select the site (reference implementation of the documented matching) exactly once with the tag of the last matching tag rule; every call is doubled by a twin call site seen for the first time at that moment, which must be routed identically (order independence); an epilogue logs all sites and fresh twins.",
